@@ -229,6 +229,55 @@ def match_rel(t: T) -> Optional[Tuple[T, T]]:
     return None
 
 
+def group_word(t: T, depth: int = 0):
+    """normal form of a product of poses and inverses in the free group over
+    the indexed poses: [(which, view, index term, +1 | -1), ...] with adjacent
+    x x^-1 cancelled, or None if `t` is not such a product.  Two products
+    with the same word are the same matrix for every input."""
+    if depth > 12 or not isinstance(t, T):
+        return None
+    while t.op == "named":
+        t = t.args[1]
+    p = pose_at(t)
+    if p is not None:
+        return [(p[0], p[1], p[2], 1)]
+    parts = None
+    if t.op == "binop" and t.args[0] == "MatMult":
+        parts = [(t.args[1], 1), (t.args[2], 1)]
+    elif t.op == "call":
+        n = tm.callee_name(t) or ""
+        a = t.args[1]
+        if n in ("numpy.dot", "numpy.matmul") and len(a) == 2 and \
+                not t.args[2]:
+            parts = [(a[0], 1), (a[1], 1)]
+        elif n == ".dot" and len(a) == 1 and not t.args[2]:
+            parts = [(tm.method_recv(t), 1), (a[0], 1)]
+        elif n in (LIE + "se3_inverse", "numpy.linalg.inv") and \
+                len(a) == 1 and not t.args[2]:
+            parts = [(a[0], -1)]
+        elif n == LIE + "relative_se3" and len(a) == 2 and not t.args[2]:
+            parts = [(a[0], -1), (a[1], 1)]
+        elif n == "numpy.linalg.multi_dot" and len(a) == 1 and \
+                a[0].op in ("list", "tuple"):
+            parts = [(x, 1) for x in a[0].args]
+    if parts is None:
+        return None
+    word = []
+    for x, sg in parts:
+        w = group_word(x, depth + 1)
+        if w is None:
+            return None
+        if sg < 0:
+            w = [(a_, b_, c_, -d_) for a_, b_, c_, d_ in reversed(w)]
+        for g in w:
+            if word and word[-1][:3] == g[:3] and word[-1][2] is g[2] and \
+                    word[-1][3] == -g[3]:
+                word.pop()
+            else:
+                word.append(g)
+    return word
+
+
 def pose_elem(t: T) -> Optional[Tuple[str, int, str]]:
     """(which, loop id, view) for elem(data[k].poses_se3)"""
     if t.op == "elem":
